@@ -158,6 +158,17 @@ func renderVal(ex *absint.Exec, st *absint.State, v absint.Val, b builtArgs, l r
 			return fmt.Sprintf("param%d", idx[0])
 		}
 		if namedOf(x.Obj.Typ) == l.ringType || x.Obj.Typ == nil {
+			// a freshly allocated element: its value is observable too (a constructor that returns a fresh object holding
+			// the wrong value must differ from its specification)
+			if len(x.Path) == 0 {
+				leaf := &absint.Ptr{Obj: x.Obj}
+				for _, f := range l.path {
+					leaf.Path = append(leaf.Path, absint.Step{Field: f})
+				}
+				if t, ok := st.Resolve(ex.LoadLeaf(st, leaf)).(*sym.Term); ok && t != nil {
+					return "fresh-ring(" + sym.Canon(st.Simplify(t)).String() + ")"
+				}
+			}
 			return "fresh-ring"
 		}
 		return "ptr:" + x.Obj.Name
